@@ -60,7 +60,9 @@ def table_cases(draw, tier):
     p = draw(st.integers(1, 3))
     maxl = draw(st.integers(msl, n + 2))
     fam = draw(st.sampled_from(["abs", "abs", "pos", "closure"]))
-    case = {"n": n, "p": p, "msl": msl, "maxl": maxl, "family": fam}
+    # savings and (MVCAPA) user penalties in tiny or large units: everything multiplied by one power of two, so that the arithmetic
+    # stays exact - per-component penalties of 1e-9 are positive penalties, not zeros
+    case = {"n": n, "p": p, "msl": msl, "maxl": maxl, "family": fam, "unit_pow": draw(st.sampled_from([0, 0, 0, -30, -34, 20]))}
     if fam in ("abs", "pos"):
         case["u"] = draw(st.lists(st.integers(-3, 3), min_size=n * p, max_size=n * p))
         case["v"] = draw(st.lists(st.integers(-4, 4), min_size=n * p, max_size=n * p))
@@ -159,6 +161,11 @@ def check_table(case):
     S, P = saving_tables(case)
     X = np.zeros((n, p))
     tag = "c03"
+    unit = 2.0 ** case.get("unit_pow", 0) if case["detector"] == "MVCAPA" else 1.0
+    if unit != 1.0:
+        S, P = S * unit, P * unit
+        case = dict(case, int_betas=False, c_alpha=case["c_alpha"] * unit, p_alpha=case["p_alpha"] * unit,
+                    c_betas=[b * unit for b in case["c_betas"]], p_betas=[b * unit for b in case["p_betas"]])
 
     def build(ignore):
         cs = U.TableSaving(S.tolist(), 1, tag if not ignore else None)
@@ -202,7 +209,7 @@ def check_table(case):
     has_point = any(b - a == 1 for a, b in events)
     # the detector evaluates the collective saving in predict only (fit evaluates nothing)
     pruned = evals < unpruned_collective_evaluations(n, msl, maxl)
-    classes = [f"family={case['family']}", f"detector={case['detector']}"]
+    classes = [f"family={case['family']}", f"detector={case['detector']}"] + ([f"unit=2^{case.get('unit_pow')}"] if unit != 1.0 else [])
     for flag, name in ((has_coll, "collective"), (has_point, "point"), (p > 1, "p>1"),
                        (bool(np.any(S < 0) or np.any(P < 0)), "negative_savings"),
                        (pruned, "pruning_observed"), (n == msl, "n=msl"), (maxl == msl, "maxl=msl"),
